@@ -152,11 +152,40 @@ def canon(r):
 SET_LIKE = {"vertex_to_cell", "face_to_cells", "edge_to_cell", "cell_to_face_hex", "vertex_to_faces_unsorted"}
 
 
+ARGK = {"cell_to_face": "c", "cell_to_edge": "c", "vertex_to_cell": "v", "face_to_cells": "f", "edge_to_cell": "e",
+        "in_cell_index": "cv", "in_cell_face_index": "cf", "cell_to_cell": "c", "face_to_vertices": "f",
+        "face_to_edges": "f", "face_to_faces": "f", "vertex_to_faces": "v", "vertex_to_vertices": "v",
+        "vertex_to_edges": "v", "is_vertex_on_border": "v", "in_face_index": "fv", "edge_to_vertices": "e"}
+
+
+def resolve(m, name, args):
+    """index arguments are reduced modulo the size of the container they index (None: container absent/empty)"""
+    kinds = ARGK.get(name)
+    if kinds is None:
+        return list(args)
+    size = {"v": len(m.vertices), "e": len(m.edges) if hasattr(m, "edges") else 0,
+            "f": len(m.faces) if hasattr(m, "faces") else 0, "c": len(m.cells) if hasattr(m, "cells") else 0}
+    out = []
+    for k, a in zip(kinds, args):
+        if size[k] == 0:
+            return None
+        out.append(a % size[k])
+    return out + list(args[len(kinds):])
+
+
 def run_script(m, script):
     obs = []
     cn = getattr(m, "connectivity", None)
     for q in script:
         name, args = q[0], q[1:]
+        if name == "sorted":
+            ra = resolve(m, args[0], args[1:])
+            args = None if ra is None else [args[0]] + ra
+        else:
+            args = resolve(m, name, args)
+        if args is None:
+            obs.append(["skip"])
+            continue
         try:
             if name in ("boundary_edges", "interior_edges", "boundary_vertices", "interior_vertices",
                         "boundary_faces", "interior_faces"):
